@@ -269,6 +269,8 @@ class IDToken(Token):
             **alg_dict,
         )
 
+        if alg_dict["sign_alg"].startswith("HS"):  # the MAC key is the client's secret (OIDC core 10.1)
+            pack_args["issuer_id"] = client_id
         return _jwt.pack(_payload, recv=client_id, **pack_args)
 
     def __call__(
